@@ -146,19 +146,19 @@ class JsonCodeGen(IntermediateCodeGen):
 
                 modData[object_oid].append(module)
 
-        # compact once, when all MIBs are in: drop OIDs which a shorter
-        # OID of the same MIB(s) already covers
+        # compact once, when all MIBs are in: a MIB is not listed under an
+        # OID which a shorter OID of the same MIB already covers
         modData = outDict['oids']
 
         if modData:
             unique_prefixes = {}
             for oid in sorted(modData, key=lambda x: x.count('.')):
-                for oid_prefix, modules in unique_prefixes.items():
-                    if ((oid == oid_prefix or oid.startswith(oid_prefix + '.')) and
-                            set(modules).issuperset(modData[oid])):
-                        break
-                else:
-                    unique_prefixes[oid] = modData[oid]
+                modules = [module for module in modData[oid]
+                           if not [oid_prefix for oid_prefix in unique_prefixes
+                                   if oid.startswith(oid_prefix + '.') and
+                                   module in unique_prefixes[oid_prefix]]]
+                if modules:
+                    unique_prefixes[oid] = modules
 
             outDict['oids'] = unique_prefixes
 
